@@ -50,8 +50,14 @@ func zzC08_order() {
 	// fragmenting behaviour of ReadMessage itself is C05's subject)
 	for i := 0; i < nconn; i++ {
 		var all []byte
+		// requests, answers, or alternating: the rule holds for every kind of message
+		kind := vChoice("msgkind", 3)
 		for k := 0; k < nmsg; k++ {
-			all = append(all, zzPlainMessage(257, 0x80, 0, uint32(100*(i+1)+k))...)
+			flags := uint8(0x80)
+			if kind == 1 || (kind == 2 && k%2 == 0) {
+				flags = 0
+			}
+			all = append(all, zzPlainMessage(257, flags, 0, uint32(100*(i+1)+k))...)
 		}
 		switch vChoice("arrival", 3) {
 		case 0:
